@@ -32,6 +32,7 @@ Definition rule_hash_bytes (r : nrule) : list ascii :=
   enc_str (nr_name r) ++ enc_str (nr_command r) ++ enc_opt_str (nr_description r) ++
   match nr_deps r with Some s => enc_u64 1 ++ enc_str s | None => [] end ++
   match nr_pool r with Some _ => enc_opt_str (nr_pool r) | None => [] end ++
+  (if nr_always r then [ascii_of_N 1] else []) ++          (* hashed only when set (after the C06 fix) *)
   enc_opt_str (nr_rspfile r) ++ enc_opt_str (nr_rspfile_content r) ++
   match nr_deps r with Some s => enc_str s | None => [] end.
 
